@@ -636,7 +636,7 @@ func (e diskEngine) Exec(c *Case, job *Job) *Result {
 	// ---------- distinctness / non-triviality ----------
 	switch e.prop {
 	case "C01":
-		res.NonTrivial = nfired > 0 || strings.HasPrefix(c.Project.Kind, "special") || c.Project.Kind == "macro-graph" || c.Project.Kind == "truncated-rich-document" || c.Project.Kind == "light-hostile" || c.Project.Kind == "light-cycle"
+		res.NonTrivial = nfired > 0 || strings.HasPrefix(c.Project.Kind, "special") || c.Project.Kind == "macro-graph" || c.Project.Kind == "truncated-rich-document" || strings.HasPrefix(c.Project.Kind, "light-hostile") || strings.HasPrefix(c.Project.Kind, "light-cycle") || strings.HasSuffix(c.Project.Kind, "-ctx")
 		res.Key = fmt.Sprintf("%s|%s|%016x|%s", c.Project.Kind, strings.Join(firedKinds, ","), fnv64(shapeStr), o.Class())
 	case "C14":
 		res.NonTrivial = mr.includes > 0
